@@ -55,3 +55,27 @@ Theorem C08_retry : forall d order gcds chunks bytes L,
   exists st', r_do d (fst (r_do d st (RWrite (skipn L bytes)))) RSimple
               = (st', RONums (concat (map fst chunks))).
 Proof. exact retry_simple. Qed.
+
+(* ---- the whole Decompressor on 64-bit words (Model/RState.v: BitWords + bit_idx + flags + the
+   chunk body decompressor with its HuffmanTable and NumDecompressor fields; write =
+   extend_bytes, header / chunk_metadata / chunk_body / skip_chunk_body / Iterator::next /
+   free_compressed_memory / simple_decompress with the real with_reader commit discipline and
+   the unchecked fast path inside) simulates the bit-list state machine the property theorems
+   are about: from every state satisfying the invariant, every operation gives the same output
+   (numbers, items, None, the same error kind), the abstraction of the new state is the new
+   bit-list state, the invariant is kept, and nothing panics ---- *)
+From QCo.Model Require Import Words Huff RFile RBody RFast RState.
+From QCo.Lemmas Require Import RStateL.
+
+Theorem C08_word_level_decompressor_step : forall d st o, winv d st -> op_ok o ->
+  let '(st', out) := ws_step d st o in
+  winv d st' /\ r_step d (abs st) o = (abs st', out).
+Proof. exact ws_step_sim. Qed.
+
+Theorem C08_word_level_decompressor_run : forall d ops st, winv d st -> Forall op_ok ops ->
+  let '(st', outs) := ws_run d st ops in
+  winv d st' /\ r_run d (abs st) ops = (abs st', outs).
+Proof. exact ws_run_sim. Qed.
+
+Example C08_word_level_init : forall d, winv d ws_init.
+Proof. exact ws_init_inv. Qed.
